@@ -5,6 +5,7 @@ import (
 	"errors"
 	"flag"
 	"math/big"
+	"strings"
 
 	"github.com/go-spatial/geom"
 	"github.com/pdok/texel/pointindex"
@@ -48,7 +49,7 @@ func classifyPanic(r any) string {
 func borderGrids(tier string) []borderGrid {
 	var gs []borderGrid
 	syn := func(name string, tw uint, m int, x0, y0 float64, corner string, z int) {
-		g := newSynGrid(tw, m, x0, y0, corner, z+1)
+		g := newSynGridAxes(tw, m, x0, y0, corner, z+1, strings.Contains(name, "swapped"))
 		pixInt, ok := ratInt(new(big.Rat).SetFloat64(g.pix(g.levelOf(z))))
 		if !ok || pixInt%4 != 0 {
 			fatal("synthetic grid %s not exact", name)
@@ -59,6 +60,9 @@ func borderGrids(tier string) []borderGrid {
 	syn("syn-origin0", 1, 4, 0, 0, "bottomLeft", 0)
 	syn("syn-neg-topleft", 2, 6, -1024.5, 2048.25, "topLeft", 1)
 	syn("syn-pos", 1, 3, 100, 100, "bottomLeft", 2)
+	// northing/easting documents with origin x != y, both corner conventions (the extent in x,y order must come out the same)
+	syn("syn-swapped-bottomleft", 1, 4, 1000, 2000.5, "bottomLeft", 1)
+	syn("syn-swapped-topleft", 2, 5, -300.25, 64, "topLeft", 0)
 	real := func(id string, z int) {
 		dg, err := loadDocGeom(id)
 		if err != nil {
